@@ -562,3 +562,16 @@ Proof.
   intros I I'. exists (snd (tr_round_trip TrFresh r)). rewrite !tr_run_history_free.
   split; [|split; [|reflexivity]]; apply in_map_iff; exists (w, r); split; auto.
 Qed.
+
+(* ------------------------------------------------------------------ command line *)
+(* every mention of a source on the command line is a source: nothing is dropped, merged or reordered *)
+Lemma cli_keeps_every_mention_lemma {A} (is_empty : A -> bool) (args base : list A) :
+  args <> [] ->
+  cli_source_lists A is_empty false args base [] = CliOk args (filter (fun a => negb (is_empty a)) base) false
+  /\ (forall d0 d, is_empty d0 = false ->
+       cli_source_lists A is_empty false args [] (d0 :: d) = CliOk args (d0 :: filter (fun a => negb (is_empty a)) d) true).
+Proof.
+  intros N. destruct args as [|a0 rest]; [congruence|]. split.
+  - unfold cli_source_lists, drop_empty. simpl. destruct rest; destruct (filter _ base); reflexivity.
+  - intros d0 d E. unfold cli_source_lists, drop_empty. simpl. rewrite E. simpl. destruct rest; reflexivity.
+Qed.
